@@ -246,7 +246,41 @@ func (c *fibCase) exec(op string) {
 				ops.PrefixOpRemoves = append(ops.PrefixOpRemoves, &tlv.PrefixOpRemove{Name: c.pfxs[atoi(x)]})
 			}
 		}
-		c.r.Vf19Locked(func() { c.r.Vf19Pfx().Apply(ops) })
+		dirty := false
+		c.r.Vf19Locked(func() { dirty = c.r.Vf19Pfx().Apply(ops) })
+		// direct observation of Apply on that router's record (compared with apply_ops / apply_dirty of the model)
+		var ids []int
+		c.r.Vf19Locked(func() {
+			if pr := c.r.Vf19Pfx().Vf19Peek(R(f[1])); pr != nil {
+				for _, e := range pr.Prefixes {
+					ids = append(ids, c.in.id(e.Name))
+				}
+			}
+		})
+		var adds, rems []int
+		for _, a := range ops.PrefixOpAdds {
+			adds = append(adds, c.in.id(a.Name))
+		}
+		for _, a := range ops.PrefixOpRemoves {
+			rems = append(rems, c.in.id(a.Name))
+		}
+		seq := func(l []int) string {
+			if len(l) == 0 {
+				return "-"
+			}
+			s := make([]string, len(l))
+			for i, x := range l {
+				s[i] = strconv.Itoa(x)
+			}
+			return strings.Join(s, ",")
+		}
+		d := 0
+		if dirty {
+			d = 1
+		}
+		synctest.Wait()
+		fmt.Fprintf(c.w, "obs apply %d %s %s %s %d %s\n", c.in.id(R(f[1])), f[2], seq(adds), seq(rems), d, idsCSV(ids))
+		return
 	case "fu":
 		c.r.Vf19Nfdc().Vf19Drain() // commands of neighbour (un)registration since the last update are not the installer's
 		c.dumpTables()
